@@ -874,9 +874,6 @@ func simC19Apply(c *Ctx) {
 				break
 			}
 			damaged := s == damageAt
-			if cur.St == StUnknown {
-				undecided = true
-			}
 			type opt struct {
 				step  cty.PathStep
 				child int
@@ -884,6 +881,27 @@ func simC19Apply(c *Ctx) {
 				why   string
 			}
 			var opts []opt
+			if cur.St == StUnknown && (cur.T.K == KList || cur.T.K == KMap || cur.T.K == KSet) && c.G(2) == 0 {
+				// an unknown collection: whether a key of the right kind names a member is open, but a step of the wrong
+				// kind for the collection's type can never name one - whatever the collection turns out to be
+				switch cur.T.K {
+				case KList:
+					opts = []opt{{cty.IndexStep{Key: cty.StringVal("a")}, -1, false, "string key into an unknown list"}, {cty.GetAttrStep{Name: "a"}, -1, false, "attribute of an unknown list"}, {cty.IndexStep{Key: cty.True}, -1, false, "bool key into an unknown list"}}
+				case KMap:
+					opts = []opt{{cty.IndexStep{Key: cty.NumberIntVal(0)}, -1, false, "number key into an unknown map"}, {cty.GetAttrStep{Name: "a"}, -1, false, "attribute of an unknown map"}}
+				default:
+					opts = []opt{{cty.IndexStep{Key: cty.NumberIntVal(0)}, -1, false, "index into an unknown set"}, {cty.IndexStep{Key: cty.StringVal("a")}, -1, false, "key into an unknown set"}, {cty.GetAttrStep{Name: "a"}, -1, false, "attribute of an unknown set"}}
+				}
+				o := opts[c.G(len(opts))]
+				p = append(p, o.step)
+				valid, why = false, o.why
+				c.Fired("path.damage")
+				c.Probe("c19.wrong-kind-step-into-unknown-collection")
+				break
+			}
+			if cur.St == StUnknown {
+				undecided = true
+			}
 			nullOrLeaf := cur.St != StKnown
 			switch {
 			case nullOrLeaf, cur.T.K <= KBool, cur.T.K == KCapsule, cur.T.K == KDynamic:
